@@ -3,6 +3,7 @@ stepped one call at a time by a seeded scheduler.  Decides C18 (cursor model) an
 (partial load = slice of the full load)."""
 import gc
 import os
+import pathlib
 
 import numpy as np
 
@@ -203,6 +204,8 @@ def generate(check, rng, tier, run_index):
         else:
             o = _gen_handle_op(rng, len(handles), len(subsets))
             o['raw'] = True
+        if k in ('iter_new', 'load', 'load_frame', 'load_list') and rng.chance(0.2):
+            o['pathobj'] = True                         # the file is named by a pathlib.Path object
         ops.append(o)
     if files[0]['fmt'] == 'trr':
         # AVOIDED (known finding C02/trr/heap-overflow): TRR reads with stride > 1 and an atom subset write
@@ -537,6 +540,10 @@ def step_handle(res, check, world, hc, op, stepno, judge=True):
 
 # ------------------------------------------------------------------ loader steps (C02 oracle)
 
+def _pth(path, op):
+    return pathlib.Path(path) if op.get('pathobj') else path
+
+
 def _full_load(world, k, kind='obj'):
     """the reference: md.load(file, top=<the same kind of topology argument>) on a fresh handle"""
     f = world.files[k]
@@ -690,7 +697,7 @@ def step_loader(res, check, world, gens, op, stepno):
         if op.get('ai') is not None:
             kw['atom_indices'] = resolve_subset(world.subsets[op['ai']], f['spec']['n_atoms'])
         g = GenClient(op, world)
-        g.gen = md.iterload(f['path'], chunk=op['chunk'], **kw)
+        g.gen = md.iterload(_pth(f['path'], op), chunk=op['chunk'], **kw)
         gens[op['g']] = g
         res.log.append('%d g%d iterload %s chunk=%d stride=%d skip=%d%s' % (
             stepno, op['g'], fmt, op['chunk'], op['stride'], op['skip'], ' ai' if op.get('ai') is not None else ''))
@@ -761,17 +768,17 @@ def step_loader(res, check, world, gens, op, stepno):
             if kind == 'load':
                 if op['stride'] is not None:
                     kw['stride'] = op['stride']
-                got = md.load(f['path'], **kw)
+                got = md.load(_pth(f['path'], op), **kw)
                 exp = R[::(op['stride'] or 1)]
                 flags += ',stride>1' if (op['stride'] or 1) > 1 else ''
             elif kind == 'load_frame':
                 i = op['i'] % N
-                got = md.load_frame(f['path'], i, **kw)
+                got = md.load_frame(_pth(f['path'], op), i, **kw)
                 exp = R[i]
                 flags += ',i=%s' % _posclass(i, N - 1 if N > 1 else 1)
             else:
                 i = op['i'] % N
-                got = md.load(f['path'], frame=i, **kw)
+                got = md.load(_pth(f['path'], op), frame=i, **kw)
                 exp = R[i]
                 flags += ',i=%s' % _posclass(i, N - 1 if N > 1 else 1)
         except NotImplementedError:
@@ -839,7 +846,7 @@ def step_loader(res, check, world, gens, op, stepno):
         patched = op['top'] == 'shared' and 'subset' in getattr(f0['shared_top'], '__dict__', {})
         flags = 'k=%d,%s%s' % (len(ks), 'ai' if ai is not None else 'all', ',top_patched' if patched else '')
         try:
-            got = md.load([world.files[k]['path'] for k in ks], **kw)
+            got = md.load([_pth(world.files[k]['path'], op) for k in ks], **kw)
         except NotImplementedError:
             res.skip('%s.load_list' % fmt)
             return
